@@ -196,6 +196,33 @@ theorem seeded_blank_near_end (before : List Str) (ws last : Str) (hne : ws ≠ 
   have : ws.isEmpty = false := by cases ws with | nil => exact absurd rfl hne | cons _ _ => rfl
   simp [this, hws]
 
+/-- what `RegionValidator.check` reports immediately (independent of its state) -/
+def regionImmediate (n : Nat) (l : Str) : List Report :=
+  match regionPrefix l with
+  | none => []
+  | some p => if p = [' '] then [] else if p = " end".toList then [] else [⟨.regionInvalid, n⟩]
+
+theorem regionCheck_reports (s : RegionState) (n : Nat) (l : Str) : (regionCheck s n l).2 = regionImmediate n l := by
+  unfold regionCheck regionImmediate
+  cases regionPrefix l with
+  | none => rfl
+  | some p =>
+    simp only
+    split
+    · rfl
+    · split <;> rfl
+
+/-- regions: a mistyped region comment (`//region x`, `// Region`, ... : what stands between `//` and
+    the last `region` is neither a blank nor ` end`) inserted as a new line anywhere is reported at
+    that line, whatever regions the file has -/
+theorem seeded_region_invalid (lines : List Str) (i : Nat) (l : Str) (p : Str) (hi : i ≤ lines.length)
+    (hp : regionPrefix l = some p) (h1 : p ≠ [' ']) (h2 : p ≠ " end".toList) :
+    ⟨.regionInvalid, i + 1⟩ ∈ run region (lines.insertIdx i l) := by
+  refine mem_run_of_line region regionImmediate (fun s n l => regionCheck_reports s n l) _ _ 1 i l _
+    (by simp [List.getElem?_insertIdx_self, hi]) ?_
+  have h2' : ¬ p = [' ', 'e', 'n', 'd'] := by simpa using h2
+  simp [regionImmediate, hp, h1, h2', Nat.add_comm]
+
 /-! ### the empty-line rule of PragmaOnceValidator never fires -/
 
 /-- For every file, header or not: `Empty line after #pragma once` is never reported.  (The line
@@ -240,6 +267,7 @@ theorem shell_status_wraps (r : Report) : shellStatus (List.replicate 256 r) = 0
 example : search (.seq (.lit 'a') (.star (.lit 'b'))) "xxabbby".toList = true := by decide +kernel
 example : Generated.Lint.typoTable.length > 100 := by decide +kernel
 example : wsLineEnding "int x; ".toList = true ∧ wsLineEnding "int x;".toList = false := by decide +kernel
+example : regionPrefix "\t//region seeded".toList = some [] := by decide +kernel
 example : (run region ["// region a".toList, "// region b".toList, "// endregion".toList]).map (·.rule) = [.regionUnclosed] := by
   decide +kernel
 
